@@ -196,6 +196,17 @@ def run(prop, tier, seed, replay=None):
                                                    ["multiget", "cal1", [["live", "r.ics"], ["live", "d.ics"]]],
                                                    ["reupload", "cal1", "d.ics"], ["reupload", "cal1", "a.ics"], ["restart"],
                                                    ["reupload", "cal1", "r.ics"]]),
+        # starts with --defaults (which create the default collections) around property changes
+        # on those collections while they are still empty, and later when they hold members
+        "defaults-restarts": (HTTP_CONFIGS[0], [["restart", {"defaults": True}],
+                                                ["propupdate", "cal1", [["displayname", "Work: 100% [me] #1"]]],
+                                                ["propupdate", "ab1", [["displayname", "Friends"], ["abdesc", "people I know"]]],
+                                                ["propupdate", "cal1", [["calcolor", "#123456"], ["caldesc", "what I do"]]],
+                                                ["restart", {"defaults": True}],
+                                                ["put", "cal1", "a.ics", "@model:1"],
+                                                ["restart", {"defaults": True}], ["restart"],
+                                                ["propupdate", "ab1", [["displayname", None]]],
+                                                ["restart", {"defaults": True}]]),
         # bare repositories served by one long-lived process: a request that fails half-way (the
         # delete of an object whose change description cannot be made), histories that return to
         # an earlier tree (create, delete, create again with the UID that became free)
